@@ -70,6 +70,26 @@ type C17HighTags struct {
 	F uint32        `tlv8:"255"`
 	L []c17HighElem `tlv8:"131"`
 }
+
+// tag 0 is an ordinary tag for a field (only a 0-tagged item of length 0 separates list elements)
+type C17TagZero struct {
+	Z []byte `tlv8:"0"`
+	K uint8  `tlv8:"1"`
+}
+type C17TagZeroString struct {
+	K uint8  `tlv8:"1"`
+	S string `tlv8:"0"`
+}
+
+// an inline list whose elements begin with a field that is not encoded when empty
+type c17NameFirst struct {
+	Name string `tlv8:"1"`
+	Id   uint8  `tlv8:"2"`
+}
+type C17InlineNameFirst struct {
+	Head  uint8          `tlv8:"9"`
+	Items []c17NameFirst `tlv8:"-"`
+}
 type C17BigList struct {
 	L []c17Big `tlv8:"5"`
 	T uint8    `tlv8:"6"`
@@ -193,7 +213,9 @@ func c17AltsFor(t reflect.Type) []c17Alt {
 	case reflect.Float32:
 		return []c17Alt{mk("0", float32(0)), mk("1.5", float32(1.5)), mk("-2.25", float32(-2.25)), mk("max", float32(math.MaxFloat32)), mk("tiny", float32(math.SmallestNonzeroFloat32))}
 	case reflect.String:
-		return []c17Alt{mk("empty", ""), mk("a", "a"), mk("len255", strings.Repeat("x", 255)), mk("len256", strings.Repeat("y", 256)), mk("len600", strings.Repeat("z", 600)), mk("utf8", "héllo✓")}
+		return []c17Alt{mk("empty", ""), mk("a", "a"), mk("len255", strings.Repeat("x", 255)), mk("len256", strings.Repeat("y", 256)), mk("len600", strings.Repeat("z", 600)), mk("utf8", "héllo✓"),
+			// multi-byte characters lying across the 255-byte fragment boundary: fragments are cut by bytes, not by characters
+			mk("2-byte-rune-across-255", strings.Repeat("x", 254)+"é-tail"), mk("3-byte-rune-across-255", strings.Repeat("x", 253)+"✓-tail")}
 	case reflect.Slice:
 		if t.Elem().Kind() == reflect.Uint8 {
 			return []c17Alt{mk("nil", []byte(nil)), mk("one-zero", []byte{0}), mk("len255", pat(255, 3)), mk("len256", pat(256, 4)), mk("len600", pat(600, 5)), mk("zeros16", make([]byte, 16))}
@@ -345,6 +367,31 @@ func c17Equal(a, b reflect.Value) bool {
 
 // Two struct types with the same name (declared in two functions, as two packages called alike would do) and different
 // tags, both used as elements of inline lists in one process.
+// c17SameShape: the same number of elements in every list of structs.
+func c17SameShape(a, b reflect.Value) bool {
+	switch a.Kind() {
+	case reflect.Struct:
+		for i := 0; i < a.NumField(); i++ {
+			if !c17SameShape(a.Field(i), b.Field(i)) {
+				return false
+			}
+		}
+	case reflect.Slice:
+		if a.Type().Elem().Kind() == reflect.Uint8 {
+			return true
+		}
+		if a.Len() != b.Len() {
+			return false
+		}
+		for i := 0; i < a.Len(); i++ {
+			if !c17SameShape(a.Index(i), b.Index(i)) {
+				return false
+			}
+		}
+	}
+	return true
+}
+
 func c17LocalA() reflect.Type {
 	type Elem struct {
 		X uint8 `tlv8:"1"`
@@ -379,6 +426,9 @@ func c17Targets() []c17Target {
 		{"Inline", reflect.TypeOf(C17Inline{})},
 		{"BigList", reflect.TypeOf(C17BigList{})},
 		{"HighTags", reflect.TypeOf(C17HighTags{})},
+		{"TagZero", reflect.TypeOf(C17TagZero{})},
+		{"TagZeroString", reflect.TypeOf(C17TagZeroString{})},
+		{"InlineNameFirst", reflect.TypeOf(C17InlineNameFirst{})},
 		{"LocalInlineA", c17LocalA()},
 		{"LocalInlineB", c17LocalB()},
 		{"rtp.SetupEndpoints", reflect.TypeOf(rtp.SetupEndpoints{})},
@@ -496,6 +546,9 @@ func c17Roundtrip(c *fw.Ctx, tg c17Target, devs []c17Dev, report bool) string {
 		return fail("unmarshal-error", "Unmarshal of Marshal's output fails: "+err.Error())
 	}
 	if !c17Equal(v, back.Elem()) {
+		if !c17SameShape(v, back.Elem()) {
+			return fail("roundtrip-list-length-differs", "Unmarshal(Marshal(v)) has lists of other lengths than v: elements were lost or invented")
+		}
 		return fail("roundtrip-differs", "Unmarshal(Marshal(v)) != v")
 	}
 	// the input belongs to the caller: Unmarshal must not modify it, and decoding it again gives the same value
@@ -750,7 +803,7 @@ func init() {
 	fw.Register(&fw.Check{
 		ID:          "C17",
 		Level:       "exploration",
-		Rule:        "for every RTP message type of the library (setup endpoints, its response, selected and supported stream configurations, supported RTP configuration, streaming status) and three synthetic structs covering every field kind (8/16/32/64-bit ints, float32, bool, string, bytes, nested struct, tagged list, inline list, list elements longer than one fragment): a base value, then every field (reflection-enumerated leaf) moved through its boundary alphabet with 1 and all pairs of 2 simultaneous deviations (thorough: triples); bytes compared with an independent reflective little-endian TLV8 encoder, then Unmarshal(Marshal(v)) compared with v; ownership: the bytes returned by Marshal must survive later Marshal calls, Unmarshal must not modify its input and decoding the same bytes twice must agree. Decoder inputs per type: all byte strings of length ≤2, every prefix and 8 substitutions per byte of a valid encoding, every tag 0..15 with value lengths 0..9. distinct_nontrivial = distinct (target type, case kind) classes A fourth synthetic struct uses tags 126, 127, 128, 129, 131, 200, 250, 254, 255. Plus, in a subprocess built with a scheduling point before EVERY statement of hc's packages (textual insertion through go build -overlay): every interleaving with at most 1 (thorough 2) preemptions of pairs of operations on disjoint objects — and, where the property is about served requests, of pairs of handlers on two verified connections of one accessory touching different characteristics — each side must observe exactly what it observes when the two run one after the other (module-level mutable state is what makes them differ).",
+		Rule:        "for every RTP message type of the library (setup endpoints, its response, selected and supported stream configurations, supported RTP configuration, streaming status) and three synthetic structs covering every field kind (8/16/32/64-bit ints, float32, bool, string, bytes, nested struct, tagged list, inline list, list elements longer than one fragment; fields tagged 0 holding byte strings and strings of up to 600 bytes; an inline list whose elements begin with a string; strings with 2- and 3-byte characters lying across the 255-byte fragment boundary): a base value, then every field (reflection-enumerated leaf) moved through its boundary alphabet with 1 and all pairs of 2 simultaneous deviations (thorough: triples); bytes compared with an independent reflective little-endian TLV8 encoder, then Unmarshal(Marshal(v)) compared with v; ownership: the bytes returned by Marshal must survive later Marshal calls, Unmarshal must not modify its input and decoding the same bytes twice must agree. Decoder inputs per type: all byte strings of length ≤2, every prefix and 8 substitutions per byte of a valid encoding, every tag 0..15 with value lengths 0..9. distinct_nontrivial = distinct (target type, case kind) classes A fourth synthetic struct uses tags 126, 127, 128, 129, 131, 200, 250, 254, 255. Plus, in a subprocess built with a scheduling point before EVERY statement of hc's packages (textual insertion through go build -overlay): every interleaving with at most 1 (thorough 2) preemptions of pairs of operations on disjoint objects — and, where the property is about served requests, of pairs of handlers on two verified connections of one accessory touching different characteristics — each side must observe exactly what it observes when the two run one after the other (module-level mutable state is what makes them differ).",
 		Run:         c17Run,
 		Replay:      c17Replay,
 		Budget:      func(string) time.Duration { return 20 * time.Minute },
